@@ -956,3 +956,76 @@ Lemma result_not_null toks b : toks <> [] -> result_is_null toks b = false.
 Proof. destruct toks; [contradiction|reflexivity]. Qed.
 Lemma result_null_no_token b : result_is_null [] b = b.
 Proof. reflexivity. Qed.
+
+(* ------------------------------------------------------------------ I. one formatter object, several messages *)
+Lemma call_oob_result o m : fst (call_oob o m) = format_oob (otoks o) m.
+Proof. unfold call_oob, format_oob. destruct (otoks o); reflexivity. Qed.
+Lemma call_oob_toks o m : otoks (snd (call_oob o m)) = otoks o.
+Proof. unfold call_oob. destruct (otoks o) eqn:E; cbn [snd otoks]; [exact E|reflexivity]. Qed.
+Lemma call_oob_pending o m : otoks o <> [] -> opending (snd (call_oob o m)) = 0.
+Proof. unfold call_oob. destruct (otoks o); [contradiction|reflexivity]. Qed.
+Lemma call_model_result o m : fst (call_model o m) = format_model (otoks o) m.
+Proof. unfold call_model, format_model. destruct src_inband_marker; [reflexivity|apply call_oob_result]. Qed.
+Lemma call_model_toks o m : otoks (snd (call_model o m)) = otoks o.
+Proof. unfold call_model. destruct src_inband_marker; [reflexivity|apply call_oob_toks]. Qed.
+Lemma calls_model_results ms : forall o, fst (calls_model o ms) = map (format_model (otoks o)) ms.
+Proof.
+  induction ms as [|m r IH]; intros o; [reflexivity|].
+  cbn [calls_model map]. pose proof (call_model_result o m) as H1. pose proof (call_model_toks o m) as H2.
+  destruct (call_model o m) as [x o1]. cbn [fst snd] in H1, H2. specialize (IH o1).
+  destruct (calls_model o1 r) as [xs o2]. cbn [fst] in IH |- *. rewrite H1, IH, H2. reflexivity.
+Qed.
+Lemma calls_model_toks ms : forall o, otoks (snd (calls_model o ms)) = otoks o.
+Proof.
+  induction ms as [|m r IH]; intros o; [reflexivity|].
+  cbn [calls_model]. pose proof (call_model_toks o m) as H2.
+  destruct (call_model o m) as [x o1]. cbn [snd] in H2. specialize (IH o1).
+  destruct (calls_model o1 r) as [xs o2]. cbn [snd] in IH |- *. rewrite IH. exact H2.
+Qed.
+(* the results of a sequence of calls on one object are, call by call, what the pattern and THAT message give *)
+Lemma seq_stateless p l ms : format_seq p l ms = map (format_pattern p) ms.
+Proof. unfold format_seq. rewrite calls_model_results. reflexivity. Qed.
+Lemma seq_nth p l ms i m : nth_error ms i = Some m -> nth_error (format_seq p l ms) i = Some (format_pattern p m).
+Proof. intros H. rewrite seq_stateless. apply map_nth_error, H. Qed.
+Lemma seq_history_independent p l h m t : nth_error (format_seq p l (h ++ m :: t)) (length h) = Some (format_pattern p m).
+Proof. apply seq_nth. rewrite nth_error_app2 by lia. rewrite Nat.sub_diag. reflexivity. Qed.
+Lemma seq_length p l ms : length (format_seq p l ms) = length ms.
+Proof. rewrite seq_stateless. apply map_length. Qed.
+Lemma seq_object_unchanged p l ms : otoks (snd (calls_model (construct p l) ms)) = parse_pattern p.
+Proof. rewrite calls_model_toks. reflexivity. Qed.
+Lemma calls_model_pending (Hsrc : src_inband_marker = None) ms : forall o, otoks o <> [] ->
+  opending (snd (calls_model o ms)) = match ms with [] => opending o | _ => 0 end.
+Proof.
+  induction ms as [|m r IH]; intros o Ho; [reflexivity|].
+  cbn [calls_model]. pose proof (call_model_toks o m) as H2.
+  assert (H3 : opending (snd (call_model o m)) = 0) by (unfold call_model; rewrite Hsrc; apply call_oob_pending, Ho).
+  destruct (call_model o m) as [x o1]. cbn [snd] in H2, H3. assert (Ho1 : otoks o1 <> []) by (rewrite H2; exact Ho).
+  specialize (IH o1 Ho1). destruct (calls_model o1 r) as [xs o2]. cbn [snd] in IH |- *. rewrite IH. destruct r; [exact H3|reflexivity].
+Qed.
+Lemma seq_no_pending_left (Hsrc : src_inband_marker = None) p l ms : parse_pattern p <> [] -> ms <> [] ->
+  opending (snd (calls_model (construct p l) ms)) = 0.
+Proof. intros Hp Hms. rewrite (calls_model_pending Hsrc) by exact Hp. destruct ms; [contradiction|reflexivity]. Qed.
+Lemma oracle_seq_meaning p ms : forall os, oracle_seq p ms os = true -> Forall2 (fun m o => oracle_pattern p m o = true) ms os.
+Proof.
+  induction ms as [|m r IH]; intros [|o os] H; try discriminate; [constructor|].
+  cbn [oracle_seq] in H. apply andb_prop in H as [H1 H2]. constructor; [exact H1|apply IH, H2].
+Qed.
+Lemma oracle_seq_holds (Hsrc : src_inband_marker = None) p l ms : oracle_seq p ms (format_seq p l ms) = true.
+Proof.
+  rewrite seq_stateless. induction ms as [|m r IH]; [reflexivity|].
+  cbn [map oracle_seq]. rewrite IH, andb_true_r. unfold oracle_pattern, format_pattern. apply (M_oracle Hsrc).
+Qed.
+(* the statement is not vacuous: without the two resets of format() the same object gives a different text
+   for the same message the second time ("abcd%{a?,2}", attribute a missing: "abcd", then "cd") *)
+Definition x_l_pat : qstr := [97;98;99;100;37;123;97;63;44;50;125].
+Definition x_l_out1 : qstr := [97;98;99;100].
+Definition x_l_out2 : qstr := [99;100].
+Lemma leaky_refuted : exists p m,
+  let o0 := construct p 0 in
+  fst (call_leaky o0 m) = x_l_out1 /\ fst (call_leaky (snd (call_leaky o0 m)) m) = x_l_out2 /\
+  format_seq p 0 [m; m] = [x_l_out1; x_l_out1].
+Proof. exists x_l_pat, (msg0 Debug [] []). vm_compute. repeat split. Qed.
+(* the demo of seeded/C12-ind-r4-1: "%{a?,1}%{b?,1}::: %{message}", message "m"; a and b missing, then a = "A", then both missing *)
+Definition x_q_pat : qstr := [37;123;97;63;44;49;125;37;123;98;63;44;49;125;58;58;58;32;37;123;109;101;115;115;97;103;101;125].
+Definition x_q_o1 : qstr := [58;32;109].
+Definition x_q_o2 : qstr := [65;58;58;32;109].
